@@ -712,6 +712,17 @@ func c16Eval(targets []c16Target, only string, desc string, x []byte, perCall bo
 		if pan != "" {
 			add(c16Class(t.Name)+" panic "+pan, "returns a value or an error, never panics", pan)
 		}
+		if dt > c16TimeBudget && pan == "" {
+			// wall-clock time is not a property of the call alone (loaded machine, GC, a stalled VM): a call
+			// over budget is repeated; only a call that is over budget every time is reported
+			for k := 0; k < 3 && dt > c16TimeBudget; k++ {
+				t1 := time.Now()
+				_ = call(func() { t.F(x) })
+				if d := time.Since(t1); d < dt {
+					dt = d
+				}
+			}
+		}
 		if dt > c16TimeBudget {
 			add(c16Class(t.Name)+" time budget", "no unbounded loop: completes within the time budget", dt.String())
 		}
@@ -908,11 +919,11 @@ func c16Careful(tier string, req c16Req) (killer map[string]string, rep *c16Repo
 				cur, _ := os.ReadFile(tf.Name())
 				if !bytes.Equal(cur, last) {
 					last, lastChange = cur, time.Now()
-				} else if time.Since(lastChange) > 20*time.Second {
+				} else if time.Since(lastChange) > 60*time.Second {
 					var m map[string]string
 					_ = json.Unmarshal(cur, &m)
 					if m != nil {
-						m["event"] = "no progress for 20 s on this input (hang)"
+						m["event"] = "no progress for 60 s on this input (hang)"
 					}
 					return m, nil
 				}
